@@ -206,6 +206,15 @@ func body(s *simrt.Sim, tier string) {
 	}
 	// removal exactly when the last piece arrives
 	raceRemoval := tp.Chance(500)
+	// Workload variants (out of band, see simrt.Tape.Variant; variant 0 is the
+	// original workload): in a third of the runs the arrival of the last piece
+	// triggers Stop or Reload of that agent instead of RemoveTorrent, so that
+	// shutdown races with the asynchronous completion notice.
+	variant := s.Tape.Variant
+	stopRace := variant%3 == 1
+	if stopRace {
+		raceRemoval = true
+	}
 	trigger := make(chan [2]int, 64)
 	if raceRemoval {
 		seen := map[[2]int]int{}
@@ -232,6 +241,22 @@ func body(s *simrt.Sim, tier string) {
 		simrt.Go(func() {
 			for {
 				k := simrt.Recv(trigger)
+				if stopRace {
+					if _, done := w.stopped[k[0]]; !done {
+						w.stopped[k[0]] = s.NextSeq()
+						a := c.Agents[k[0]]
+						if (variant/3)%2 == 0 {
+							s.Probe("stop_at_last_piece")
+							s.Logf("Stop agent%d at its last piece", k[0]+1)
+							s.GoNode(a.Node, "stop", func() { a.Sched.Stop() })
+						} else {
+							s.Probe("reload_at_last_piece")
+							s.Logf("Reload agent%d at its last piece", k[0]+1)
+							s.GoNode(a.Node, "reload", func() { a.Sched.Reload(sc) })
+						}
+					}
+					continue
+				}
 				if tp.Chance(700) {
 					w.remove(k[0], k[1])
 				}
